@@ -455,6 +455,12 @@ Definition bcase (o : oracles) (t : Z) (tmsg : string) (bs : option nat) (ins : 
 """
 
 
+def coq_oracle(b):
+    """the recorded oracle tables of a batch as a Gallina term of type oracles"""
+    head = coq_case({"tables": b["tables"], "error": None, "rows": [], "stats": {"x": 1}, "t": b["t"], "inputs": []})
+    return head[len("pcase "):head.index(" %s %s" % (cz(fkey(b["t"])), cstr(tmsg(b["t"]))))]
+
+
 def coq_case_api(b):
     """Gallina boolean: Model/Batch.rebalance over Model/Pipeline.run reproduces this public-API run."""
     head = coq_case({"tables": b["tables"], "error": None, "rows": [], "stats": {"x": 1}, "t": b["t"], "inputs": []})
